@@ -78,8 +78,11 @@ theorem sendRPC_sleeps_from (outs : List Cls) (j : Nat) (s : Int) :
         exact ⟨k + 1, by rw [sendRPC_server_sleep j s hs]; simp [sleepsOf, schedFrom, hk]⟩
       · obtain ⟨k, hk⟩ := ih j (s + 1)
         exact ⟨k, by rw [sendRPC_server_imm j s hs]; simp [sleepsOf, hk]⟩
-    · obtain ⟨k, hk⟩ := ih j s
-      exact ⟨k, by rw [sendRPC_nsre]; simp [sleepsOf, hk]⟩
+    · by_cases hs : s > 1
+      · obtain ⟨k, hk⟩ := ih (j + 1) (s + 1)
+        exact ⟨k + 1, by rw [sendRPC_nsre_sleep j s hs]; simp [sleepsOf, schedFrom, hk]⟩
+      · obtain ⟨k, hk⟩ := ih j (s + 1)
+        exact ⟨k, by rw [sendRPC_nsre_imm j s hs]; simp [sleepsOf, hk]⟩
 
 /-- Whatever the outcome sequence, the waits of a single call are, in order, an initial segment
 of the schedule. -/
@@ -100,8 +103,10 @@ theorem sendRPC_retryable_never_immediate (outs : List Cls) (j : Nat) (s : Int) 
       · rw [sendRPC_server_sleep j s hs, immediateRetries_attempt_sleep]; exact ih _ _
       · rw [sendRPC_server_imm j s hs, immediateRetries_attempt_runRPC, ih]
         split <;> simp
-    · rw [sendRPC_nsre, immediateRetries_attempt_runRPC, ih]
-      split <;> simp
+    · by_cases hs : s > 1
+      · rw [sendRPC_nsre_sleep j s hs, immediateRetries_attempt_sleep]; exact ih _ _
+      · rw [sendRPC_nsre_imm j s hs, immediateRetries_attempt_runRPC, ih]
+        split <;> simp
 
 /-- A retry-later answer (region opening / too busy / call queue too big / throttling …) is
 always followed by a wait before the next attempt. -/
@@ -128,11 +133,15 @@ theorem sendRPC_server_immediate_bound (outs : List Cls) (j : Nat) (s : Int) (hs
         by_cases hr : rest = []
         · subst hr; simp; omega
         · simp [hr]; omega
-    · rw [sendRPC_nsre, immediateRetries_attempt_runRPC]
-      have := ih j s hs
-      by_cases hr : rest = []
-      · subst hr; simp; omega
-      · simp [hr]; omega
+    · by_cases h1 : s > 1
+      · rw [sendRPC_nsre_sleep j s h1, immediateRetries_attempt_sleep]
+        have := ih (j + 1) (s + 1) (by omega)
+        omega
+      · rw [sendRPC_nsre_imm j s h1, immediateRetries_attempt_runRPC]
+        have := ih j (s + 1) (by omega)
+        by_cases hr : rest = []
+        · subst hr; simp; omega
+        · simp [hr]; omega
 
 /-- A connection-level failure is retried immediately at most twice per request; after that
 every such failure is followed by a wait from the schedule. -/
@@ -140,6 +149,47 @@ theorem server_error_immediate_at_most_twice (outs : List Cls) :
     immediateRetries .server (sendRPC Backoff.nextBackoff sendRPCArms sendRPCInit outs) ≤ 2 := by
   rw [sendRPCInit_eq]
   have := (sendRPC_server_immediate_bound outs 0 0 (by omega)).1 (by omega)
+  simp only [runRPC] at this
+  omega
+
+theorem sendRPC_nsre_immediate_bound (outs : List Cls) (j : Nat) (s : Int) (hs : 0 ≤ s) :
+    (s ≤ 2 → (immediateRetries .nsre (runRPC ⟨sched j, s⟩ outs) : Int) + s ≤ 2) ∧
+    (2 ≤ s → immediateRetries .nsre (runRPC ⟨sched j, s⟩ outs) = 0) := by
+  induction outs generalizing j s with
+  | nil => simp [runRPC, sendRPC, immediateRetries]
+  | cons c rest ih =>
+    cases c
+    · simp [sendRPC_ok, immediateRetries]
+    · simp [sendRPC_fatal, immediateRetries]
+    · rw [sendRPC_retryable, immediateRetries_attempt_sleep]; exact ih _ _ hs
+    · by_cases h1 : s > 1
+      · rw [sendRPC_server_sleep j s h1, immediateRetries_attempt_sleep]
+        have := ih (j + 1) (s + 1) (by omega)
+        omega
+      · rw [sendRPC_server_imm j s h1, immediateRetries_attempt_runRPC]
+        have := ih j (s + 1) (by omega)
+        by_cases hr : rest = []
+        · subst hr; simp; omega
+        · simp [hr]; omega
+    · by_cases h1 : s > 1
+      · rw [sendRPC_nsre_sleep j s h1, immediateRetries_attempt_sleep]
+        have := ih (j + 1) (s + 1) (by omega)
+        omega
+      · rw [sendRPC_nsre_imm j s h1, immediateRetries_attempt_runRPC]
+        have := ih j (s + 1) (by omega)
+        by_cases hr : rest = []
+        · subst hr; simp; omega
+        · simp [hr]; omega
+
+/-- A region-level refusal (NotServingRegion) is retried immediately at most twice per request as
+well; after that every refusal is followed by a wait from the schedule — also when the region
+passes its availability probe each time and refuses the request itself (fix in `SendRPC`: the
+NotServingRegionError arm shares the ServerError arm's counter; before, the arm was a bare
+`continue` and such a region was hammered without any wait). -/
+theorem region_error_immediate_at_most_twice (outs : List Cls) :
+    immediateRetries .nsre (sendRPC Backoff.nextBackoff sendRPCArms sendRPCInit outs) ≤ 2 := by
+  rw [sendRPCInit_eq]
+  have := (sendRPC_nsre_immediate_bound outs 0 0 (by omega)).1 (by omega)
   simp only [runRPC] at this
   omega
 
